@@ -175,7 +175,8 @@ theorem update_sim (s : RState) :
   unfold LState.updateSeqDelimiters RState.updateSeqDelimiters toLazy
   simp only
   repeat' (first | split | dsimp only)
-  all_goals simp_all
+  all_goals (try simp_all)
+  all_goals (try omega)
 
 theorem update_tok (s : RState) (t : Token) (s' : RState) (h : s.updateSeqDelimiters = (.ok (some t), s')) :
     t = .itemEnd ∨ t = .sequenceEnd := by
@@ -204,8 +205,9 @@ def StepRes : Option (Except RErr Token) × RState → Option (Except LErr Token
 
 theorem nextOwned_body (l : LState) (hb : l.hardBreak = false) (hp : l.peeked = none)
     (hc : l.delimiterCheckPending = false) : l.nextOwned = bodyOwned l := by
-  unfold LState.nextOwned bodyOwned LState.advance
-  simp [hb, hp, hc]
+  unfold LState.nextOwned LState.advance
+  simp only [hb, hp, hc, Bool.false_eq_true, if_false]
+  rfl
 
 /-- **one step**: unless the step is one of the three designed differences, one `next()` of the eager
 reader and one `advance()` + `into_owned()` of the lazy reader, started in corresponding states, end the
@@ -250,8 +252,20 @@ theorem step_sim (s : RState) (h : AnomStep s = false) (fuel : Nat) :
       rcases hus : s.updateSeqDelimiters with ⟨ur, s1⟩
       rw [hus] at h hu
       simp only at hu
-      unfold RState.next LState.nextOwned LState.advance
-      simp only [hb, hp, Bool.false_eq_true, if_false, if_true, hus, toLazy, hu]
+      have hadv : (toLazy s).advance =
+          (match (toLazy s).updateSeqDelimiters with
+            | (.error e, s') => (some (.error (.err e)), { s' with hardBreak := true })
+            | (.ok (some tok), s') => (some (.ok (.tok tok)), s')
+            | (.ok none, s') => s'.advanceBody) := by
+        unfold LState.advance
+        have h1 : (toLazy s).hardBreak = false := by simp [toLazy, hb]
+        have h2 : (toLazy s).peeked = none := rfl
+        have h3 : (toLazy s).delimiterCheckPending = true := by simp [toLazy, hp]
+        simp only [h1, h2, h3, Bool.false_eq_true, if_false, if_true]
+        rfl
+      unfold RState.next LState.nextOwned
+      rw [hadv, hu]
+      simp only [hb, hp, Bool.false_eq_true, if_false, if_true, hus]
       cases ur with
       | error e => simp [StepRes, errRel]
       | ok o =>
@@ -271,19 +285,9 @@ theorem step_sim (s : RState) (h : AnomStep s = false) (fuel : Nat) :
               | (injection hus with h1 h2; cases h1; done)
           rcases hn : s1.nextBody with ⟨r, s''⟩
           rw [hn] at hb'
-          have hbo : bodyOwned (toLazy s1) =
-              (match (toLazy s1).advanceBody with
-                | (none, l') => (none, l')
-                | (some (.error e), l') => (some (.error e), l')
-                | (some (.ok t), l') =>
-                  match t.intoOwned l'.dec with
-                  | .ok (tok, d) => (some (.ok tok), { l' with dec := d })
-                  | .error e => (some (.error (.err e)), l')) := rfl
-          simp only [toLazy] at hbo
-          rw [← hbo]
+          show StepRes _ (bodyOwned (toLazy s1))
           rcases hl2 : bodyOwned (toLazy s1) with ⟨lr, l'⟩
-          simp only [toLazy] at hl2
-          rw [hl2] at hb' ⊢
+          rw [hl2] at hb'
           cases r with
           | none => simp [SimRes] at hb'
           | some r =>
@@ -303,5 +307,100 @@ theorem step_sim (s : RState) (h : AnomStep s = false) (fuel : Nat) :
   · -- fused
     unfold RState.next LState.nextOwned LState.advance
     simp [hb, toLazy, StepRes]
+
+/-! ### whole runs -/
+
+/-- the eager run of `readTokens`, instrumented: it stops and raises the flag when the next step is one of
+the designed differences -/
+def eagerRunA : Nat → RState → List Token × Option RErr × Bool
+  | 0, _ => ([], none, false)
+  | fuel + 1, s =>
+    if AnomStep s then ([], none, true) else
+    match s.next (s.dec.rest.length + 1) with
+    | (none, _) => ([], none, false)
+    | (some (.error e), _) => ([], some e, false)
+    | (some (.ok t), s') =>
+      let r := eagerRunA fuel s'
+      (t :: r.1, r.2.1, r.2.2)
+
+/-- without a flag the instrumented run is the run -/
+theorem eagerRunA_eq : ∀ (fuel : Nat) (s : RState), (eagerRunA fuel s).2.2 = false →
+    readTokens fuel s = ((eagerRunA fuel s).1, (eagerRunA fuel s).2.1)
+  | 0, _, _ => rfl
+  | fuel + 1, s, h => by
+    unfold eagerRunA at h ⊢
+    unfold readTokens
+    by_cases ha : AnomStep s = true
+    · simp [ha] at h
+    · simp only [ha, Bool.false_eq_true, if_false] at h ⊢
+      rcases hn : s.next (s.dec.rest.length + 1) with ⟨r, s'⟩
+      rw [hn] at h
+      cases r with
+      | none => rfl
+      | some r =>
+        cases r with
+        | error e => rfl
+        | ok t =>
+          simp only at h ⊢
+          rw [eagerRunA_eq fuel s' h]
+
+def TokRel (t t' : Token) : Prop := ∃ be, t' = normTok be t
+
+def ToksRel : List Token → List Token → Prop
+  | [], [] => True
+  | t :: r, t' :: r' => TokRel t t' ∧ ToksRel r r'
+  | _, _ => False
+
+def EndRel : Option RErr → Option LErr → Prop
+  | none, none => True
+  | some e, some le => errRel e le
+  | _, _ => False
+
+/-- **materialising the lazy tokens gives the eager token run**, for every starting state (hence every
+byte string, valid or not), as long as the eager run does not reach one of the three designed differences:
+same number of tokens, each the same up to the offset-table representation, same ending (end of data, or
+corresponding errors) -/
+theorem lazy_run_eq_eager_run : ∀ (fuel : Nat) (s : RState), (eagerRunA fuel s).2.2 = false →
+    ToksRel (eagerRunA fuel s).1 (lazyTokens fuel (toLazy s)).1 ∧
+    EndRel (eagerRunA fuel s).2.1 (lazyTokens fuel (toLazy s)).2
+  | 0, _, _ => by simp [eagerRunA, lazyTokens, ToksRel, EndRel]
+  | fuel + 1, s, h => by
+    unfold eagerRunA at h ⊢
+    unfold lazyTokens
+    by_cases ha : AnomStep s = true
+    · simp [ha] at h
+    · simp only [ha, Bool.false_eq_true, if_false] at h ⊢
+      have hst := step_sim s (by simpa using ha) s.dec.rest.length
+      rcases hn : s.next (s.dec.rest.length + 1) with ⟨r, s'⟩
+      rcases hl : (toLazy s).nextOwned with ⟨lr, l'⟩
+      rw [hn, hl] at hst
+      rw [hn] at h
+      cases r with
+      | none =>
+        cases lr with
+        | none => simp [ToksRel, EndRel]
+        | some x => simp [StepRes] at hst
+      | some r =>
+        cases r with
+        | error e =>
+          cases lr with
+          | none => simp [StepRes] at hst
+          | some x =>
+            cases x with
+            | error le => simpa [ToksRel, EndRel, StepRes] using hst
+            | ok t' => simp [StepRes] at hst
+        | ok t =>
+          cases lr with
+          | none => simp [StepRes] at hst
+          | some x =>
+            cases x with
+            | error le => simp [StepRes] at hst
+            | ok t' =>
+              simp only [StepRes] at hst
+              obtain ⟨htok, hl'⟩ := hst
+              subst hl'
+              simp only at h ⊢
+              have ih := lazy_run_eq_eager_run fuel s' h
+              exact ⟨⟨htok, ih.1⟩, ih.2⟩
 
 end Dicom.LE
